@@ -36,19 +36,21 @@ def skipTable : List Bool :=
 /-- what the extractor could NOT translate (reference values were used there); must be empty -/
 def extractProblems : List String := []
 
-/-- cli/ecal.go: is the first statement of `main` the unconditional call `tool.RunPackedBinary()`?
-    First statement found: `tool.RunPackedBinary()` -/
-def mainCallsRunPackedFirst : Bool := true
+/-! Three-valued facts: `some true` / `some false` = established from the source, `none` = not established
+(the check then relies on the correspondence cases alone and amplifies them). -/
 
-/-- Pack: is the target opened so that its old content is discarded (`os.Create`, or `os.OpenFile` with
-    `O_TRUNC`)? Found: `os.Create(*p.TargetBinary)` -/
-def targetOpenTruncates : Bool := true
+/-- cli/ecal.go: is the first statement of `main` the unconditional call `tool.RunPackedBinary()`?
+    Found: `tool.RunPackedBinary()` -/
+def mainCallsRunPackedFirst : Option Bool := some true
 
 /-- is the file to scan determined with `os.Executable()`? Found: `osExecutable() (osExecutable = os.Executable)` -/
-def locateUsesOsExecutable : Bool := true
+def locateUsesOsExecutable : Option Bool := some true
 
-/-- is `packmarker` the result of a function call at run time (not a constant expression, which the
-    compiler would fold into one literal inside the interpreter binary)? -/
+/-- information only (no obligation; the sequence cases decide): Pack opens the target with `os.Create` / `O_TRUNC`?
+    Found: `os.Create(*p.TargetBinary)` -/
+def targetOpenTruncates : Option Bool := some true
+
+/-- information only (no obligation; case `realbin` is the evidence): `packmarker` is built by a call at run time -/
 def markerBuiltByCall : Bool := true
 
 end Ecal.Gen.C20
